@@ -193,6 +193,18 @@ def check_crc(ck, prog):
                             a = ex.strip(a)
                             if a is not None and a.get("k") == "var" and a.get("s") == "l":
                                 guard_locals.add(a["n"])
+        # ... or a call of a static helper of the same file that contains the update (with its own guard)
+        for b, i, e in f.iter_elems():
+            for c0 in ex.calls(e, into_refs=False):
+                for cand in prog.functions.get(c0.get("fn") or "", []):
+                    if not (cand.blocks and cand.static and cand.tu == f.tu):
+                        continue
+                    for b2, i2, e2 in cand.iter_elems():
+                        for (l2, r2, op2, n2) in ex.writes(e2):
+                            fk2 = ex.field_key(l2)
+                            c2 = ex.strip(r2) if r2 is not None else None
+                            if fk2 and "crc32" in fk2[1] and c2 is not None and c2.get("k") == "call" and c2.get("fn") == "lzma_crc32":
+                                upd_sites.append((b.id, i, c2))
         if not upd_sites:
             ck.ob("C06-CRC", name + ":update", False, common.where(f),
                   "no `X->crc32 = lzma_crc32(...)` update found", key="CRC:%s:update" % name)
